@@ -333,7 +333,7 @@ def step (line impl : String) : String × Verdict :=
   -- displaying a value, a unit or a rate always produces text: a panic (e.g. a formatting trait
   -- implementation returning an error) is a failing input of its own, whatever the text would have been
   let isFmtOp := match ws with
-    | "fmt" :: _ => true | "fmtu" :: _ => true | "fmtrt" :: _ => true | "ftxt" :: _ => true
+    | "fmt" :: _ => true | "fmtu" :: _ => true | "fmtrt" :: _ => true | "ftxt" :: _ => true | "fmtnest" :: _ => true
     | _ => ws.getLast? == some "fmt" && ws.head? == some "rate"
   if isFmtOp && impl.startsWith "panic:" then
     ("text", .fail "displaying the value panicked instead of producing text")
@@ -658,6 +658,11 @@ def step (line impl : String) : String × Verdict :=
         (exp ++ " " ++ exp, (check (o == r) "a unit is not displayed as its symbol under ordinary string formatting rules").and
           (check (o == exp) "unit display differs from symbol padded/truncated as a string"))
       | _ => (impl, .skip "unparsed impl output")
+    | _, _, _ => bad
+  | ["fmtnest", t, i, a] =>
+    -- re-entrant formatting (the sink formats the value again for every chunk): it returns
+    match W.find t, i.toNat?, C.parse a with
+    | some _, some _, some _ => ("ok", check (impl == "ok") "formatting through a sink that itself formats the value does not return normally")
     | _, _, _ => bad
   | ["fmtrt", t, i, a] =>
     match W.find t, i.toNat?, C.parse a with
